@@ -40,7 +40,9 @@ MANIFEST = {
             'stopped, plus stop/clear/status calls. Histories are short (<= 12 '
             'client calls) so the linearisation search is exhaustive per '
             'history. Distinct schedules and histories are counted. Sampling '
-            'of interleavings, not enumeration.',
+            'of interleavings, not enumeration.'
+            ' Every job body also asks the controller about itself (is_ru'
+            'nning(name), has_jobs()) at its first and last statement.',
     'note': 'Trusted: scheduler shims (Thread, RLock, Event), the sequential '
             'model. The 1 s lock time-out of JobControl never fires while the '
             'owner can run; bytecode-level switches inside one statement are '
